@@ -19,11 +19,13 @@ rows += ["### 11.3 Seeded changes and which check catches them", "",
          "Produced by fresh sub-agents that saw only the property text and a scratch worktree; each was confirmed",
          "(`tools/confirm_seed.sh`: demonstration passes on HEAD, fails with the patch) and run against the check",
          "(`tools/try_seed.sh`). Kept under `seeded/<id>/`.", "",
-         "| seed | property | change | needs | result of the check |", "|---|---|---|---|---|"]
-for d in sorted(glob.glob(f"{V}/seeded/*/")):
+         "| seed | property | change | needs | result of the check when the seed was imported | final matrix (tools/seed_matrix.sh) |", "|---|---|---|---|---|---|"]
+try: RES = json.load(open(f"{V}/seeded/RESULTS.json"))
+except Exception: RES = {}
+for d in sorted(glob.glob(f"{V}/seeded/C*/")):
     m = json.load(open(d + "meta.json"))
     c = m.get("confirmed_by_coordinator", {})
-    rows.append(f"| {os.path.basename(d[:-1])} | {m.get('property','')} | {esc(m.get('summary',''))[:300]} | {esc(m.get('needs',''))[:260]} | {esc(c.get('check',''))[:420]} |")
+    rows.append(f"| {os.path.basename(d[:-1])} | {m.get('property','')} | {esc(m.get('summary',''))[:300]} | {esc(m.get('needs',''))[:260]} | {esc(c.get('check',''))[:420]} | {RES.get(os.path.basename(d[:-1]),'')} |")
 rows.append("")
 rows += ["### 11.4 Per-property status (from manifest.d and the last evidence files; details in design.d/Cxx.md)", "",
          "| id | theorems (discharged/obligations) | cases last run (distinct non-trivial) | what is claimed |", "|---|---|---|---|"]
